@@ -144,3 +144,14 @@ example : (Node.tag ['p'] true [] (.cons (.text ['<', '&']) (.cons (.html ['x'])
   simp [Node.txtLeaves, Nodes.txtLeavesKids]
 
 end HtmlVerif.C02
+
+namespace HtmlVerif.C02
+open HtmlVerif
+
+/-- the statement in its own words: reading input and output in parallel, each of & < > appears as a character
+    reference that decodes to it and every other character appears unchanged (this is the predicate the check
+    evaluates on the real `html_escape` output; it does not prescribe *which* reference is used) -/
+theorem C02_statement (s : Str) : validEscape textSpecials s (escText cfg s) = true := by
+  rw [C02_escText]; exact validEscape_text s
+
+end HtmlVerif.C02
